@@ -1,6 +1,6 @@
 (* C11 -- kitty graphics output transmits exactly the image; draw and erase stay paired.
    Statements only; each is closed by a lemma proved in Image/Kitty{Parse,Proofs,History,Check,Pigeon}.v.
-   Counted: the 14 Theorems.  Audited, not counted: the 7 Lemmas (C11_term_step,
+   Counted: the 15 Theorems.  Audited, not counted: the 7 Lemmas (C11_term_step,
    C11_once_between_errors_by_content, C11_pairing_corner_refuted, C11_pid_pigeonhole,
    C11_same_content_same_id, C11_before_fix_refuted, C11_id_collision_resolved) and the
    non-vacuity Examples at the end.  Open known finding: pid-corner (the last two positions
@@ -144,6 +144,25 @@ Proof.
   - intros h i Hl. apply lookup_note_kept, Hl.
   - intros h1 h2 i H1 H2. exact (ids_ok_inj _ h1 h2 i Hok' H1 H2).
 Qed.
+
+(* the same over whole histories, and for ids that are assigned while nothing is transmitted under them:
+   the handler keeps the id table k_ids (hash -> id, never shrinks) apart from the set k_imgs of images
+   it counts as transmitted (emptied by error responses, not filled by erase).  For every history on a
+   new handler, with arbitrary hash values on every call (any hash function, any coincidence of the
+   derived ids hash mod 2^32-1 + 1) and genuine error responses, at the end: (1) no two hashes hold
+   one id, transmitted or not; (2) every image counted as transmitted is filed under the id of its own
+   hash and the terminal holds exactly its pixels under that id; (3) every placement on the terminal
+   names an id under which such an image is filed -- so every placement shows the pixels of the one
+   content its id belongs to. *)
+Theorem C11_live_contents_distinct_ids : forall (quiet : bool) (ops : list op),
+  Forall op_wf ops -> N.of_nat (length ops) < 4294967295 ->
+  let fin := final_pair (kitty_new quiet) store0 (map (fun o => (o, true)) ops) in
+  let st := fst fin in let s := snd fin in
+  (forall h1 h2 i, lookup h1 (k_ids st) = Some i -> lookup h2 (k_ids st) = Some i -> h1 = h2) /\
+  (forall id img hash, lookup id (k_imgs st) = Some (img, hash) ->
+     lookup hash (k_ids st) = Some id /\ img_lookup id (t_images s) = Some (content_of img)) /\
+  (forall p, In p (t_places s) -> exists img hash, lookup (place_id p) (k_imgs st) = Some (img, hash)).
+Proof. exact live_contents_distinct. Qed.
 
 (* for coordinates below 65536 the position is recovered from the placement id and distinct
    positions have distinct ids -- except that the very last position (65535,65535) shares the id
@@ -410,3 +429,24 @@ Proof.
           [intros h i H; discriminate|constructor|constructor|reflexivity]|].
   split; [exact W1|]. split; [split; reflexivity|]. vm_compute. reflexivity.
 Qed.
+
+(* ids that are assigned while nothing is transmitted under them: two hashes with the same derived id
+   (41 and 41 + 4294967295).  erase(a) before any draw gives a the id 42 with an empty transmitted set;
+   b then gets 43, not 42; a later draw(a) transmits a under 42 (two commands: data, placement).  The
+   same after draw(a) and an error response without placement. *)
+Example C11_ids_vs_transmitted_nonvacuous :
+  let a := mkImage [(1, 2, 3, 4)] (of_size 1 1) in
+  let b := mkImage [(5, 6, 7, 8)] (of_size 1 1) in
+  let ha := 41 in let hb := 41 + 4294967295 in
+  image_id_base ha = image_id_base hb /\
+  (let st1 := snd (step (kitty_new false) (OpErase a ha (Some (2, 3)))) in
+   k_imgs st1 = [] /\ image_id st1 ha = 42 /\
+   let st2 := snd (step st1 (OpDraw b hb (0, 0))) in
+   image_id st2 hb = 43 /\ map fst (k_imgs st2) = [43] /\
+   option_map (@length item) (parse_stream (fst (fst (step st2 (OpDraw a ha (2, 3)))))) = Some 2%nat) /\
+  (let st1 := snd (step (kitty_new false) (OpDraw a ha (1, 1))) in
+   let st2 := snd (step st1 (OpEvent (EvKitty 42 None true))) in
+   k_imgs st2 = [] /\ k_ids st2 = [(ha, 42)] /\
+   let st3 := snd (step st2 (OpDraw b hb (4, 4))) in
+   image_id st3 hb = 43 /\ image_id st3 ha = 42 /\ map fst (k_imgs st3) = [43]).
+Proof. vm_compute. repeat split; reflexivity. Qed.
